@@ -7,6 +7,7 @@ package discover
 import (
 	"crypto/ecdsa"
 	"net"
+	"time"
 )
 
 // VerifConn is the socket abstraction newUDP runs on.
@@ -68,3 +69,55 @@ func (v *VerifUDP) TableLen() int {
 
 // Close is Table.Close.
 func (v *VerifUDP) Close() { v.Tab.Close() }
+
+// ---- table side (TestC15DiscTable) ----
+
+// VerifBucketSize / VerifBuckets: the Kademlia parameters of the table.
+func VerifBucketSize() int { return bucketSize }
+func VerifBuckets() int    { return nBuckets }
+
+// VerifNodeFromRPC is nodeFromRPC's verdict on one neighbours entry.
+func VerifNodeFromRPC(ip net.IP, udpPort, tcpPort uint16, id NodeID) bool {
+	_, ok := nodeFromRPC(rpcNode{IP: ip, UDP: udpPort, TCP: tcpPort, ID: id})
+	return ok
+}
+
+// Buckets returns copies of the entries of every non-empty bucket, keyed by bucket index.
+func (v *VerifUDP) Buckets() map[int][]Node {
+	v.Tab.mutex.Lock()
+	defer v.Tab.mutex.Unlock()
+	out := map[int][]Node{}
+	for i, b := range v.Tab.buckets {
+		for _, n := range b.entries {
+			if n == nil {
+				out[i] = append(out[i], Node{})
+			} else {
+				out[i] = append(out[i], *n)
+			}
+		}
+	}
+	return out
+}
+
+// Bond is Table.bond.
+func (v *VerifUDP) Bond(pinged bool, id NodeID, addr *net.UDPAddr, tcpPort uint16) (*Node, error) {
+	return v.Tab.bond(pinged, id, addr, tcpPort)
+}
+
+// Refresh is Table.refresh (what the 30 minute ticker of udp.loop starts).
+func (v *VerifUDP) Refresh(forceSeed bool) { v.Tab.refresh(forceSeed) }
+
+// FindFails is the findnode failure counter the node database keeps for id.
+func (v *VerifUDP) FindFails(id NodeID) int { return v.t.db.findFails(id) }
+
+// AgeLastPong moves the recorded time of the last pong of id into the past (the node
+// database's expirer drops nodes not seen for nodeDBNodeExpiration).
+func (v *VerifUDP) AgeLastPong(id NodeID, by time.Duration) {
+	v.t.db.updateLastPong(id, time.Now().Add(-by))
+}
+
+// ExpireNodes is nodeDB.expireNodes (what the hourly expirer runs).
+func (v *VerifUDP) ExpireNodes() error { return v.t.db.expireNodes() }
+
+// NodeExpiration is nodeDBNodeExpiration.
+func VerifNodeExpiration() time.Duration { return nodeDBNodeExpiration }
